@@ -759,3 +759,42 @@ CHECKS["C20"]["text"] += (" No option value is passed over or replaced on a "
 for _k, _old, _new in _AMEND:
     assert _old in CHECKS[_k]["text"], (_k, _old)
     CHECKS[_k]["text"] = CHECKS[_k]["text"].replace(_old, _new, 1)
+# round 14 (supporting code: tables, data files, helpers, defaults)
+CHECKS["C01"]["text"] += (" _refine_upcheck never returns a merge that "
+                          "lost members with its changed flag false "
+                          "(C04-R3 changed flag, a path analysis).")
+CHECKS["C03"]["text"] += (" The walk wraps x by the width and y by the "
+                          "height and the search rings are the six link "
+                          "directions in order (C11-R2, re-run).")
+CHECKS["C04"]["text"] += (" Nothing is removed from the union of the "
+                          "members' sources (R1); the up-check never "
+                          "returns a smaller merge with changed false "
+                          "(R3).")
+CHECKS["C06"]["text"] += (" Every value seqs() yields is 0 or ends in "
+                          "& mask, mask 0xffff by default (R2).")
+for _k in ("C07", "C09", "C10"):
+    CHECKS[_k]["text"] += (" Sequence numbers fit and use the 16-bit wire "
+                           "field (C06-R2, re-run).")
+CHECKS["C08"]["text"] += (" enabled_fields / potential_fields hand their "
+                          "children the field values they were given "
+                          "(R3).")
+CHECKS["C09"]["text"] += (" AppState has a member with SARK's number for "
+                          "every state a core reports (R4); the region "
+                          "tree releases no sub-tree (C12-R3, re-run).")
+CHECKS["C11"]["text"] += (" A coordinate is wrapped only by the size of its "
+                          "own axis, in the modulo and in the conditional "
+                          "form (R2).")
+CHECKS["C14"]["text"] += (" Every vcpu field of sark.struct lies at the "
+                          "offset and has the width SARK gives it, the "
+                          "struct is 128 bytes (R6); AppState and the SCP "
+                          "return-code tables carry SARK's / SC&MP's "
+                          "numbers and cover all of them (C09-R4, C06-R5, "
+                          "re-run).")
+CHECKS["C16"]["text"] += (" validate_fp_params, folded for every admitted "
+                          "format, returns the format's lowest and highest "
+                          "value (R2).")
+for _k in sorted(CHECKS):
+    CHECKS[_k]["text"] += (" No integer key packs two values at the same "
+                           "bit position (PACKKEY); no text already "
+                           "formatted is handed to a callee that formats "
+                           "it again (REFORMAT).")
